@@ -1,5 +1,5 @@
 """Rule registry: name -> callable(ctx, prop) -> RuleResult | [RuleResult]."""
-from . import trav, exh, backend, names, fields, compiler, memory, purity, determinism
+from . import trav, exh, backend, names, fields, compiler, memory, purity, determinism, patterns
 
 
 def _trav_scoped(classes, name):
@@ -43,6 +43,10 @@ RULES = {
     "SORTEDEMIT": determinism.rule_sortedemit,
     "IDORDER": determinism.rule_idorder,
     "REPRLEAK": determinism.rule_reprleak,
+    "CHILDREN": patterns.rule_children,
+    "FINDORDER": patterns.rule_findorder,
+    "PASTTOTAL": patterns.rule_pasttotal,
+    "NOMATCH": patterns.rule_nomatch,
     "BACKPIPE": backend.rule_backpipe,
     "PAREMIT": backend.rule_paremit,
     "PARCHECK": backend.rule_parcheck,
